@@ -46,6 +46,9 @@ type ask struct {
 	ReadDelayUs int `json:"readDelayUs"`
 	// TimeoutKind (never/late): 0 = 2ms, 1 = zero timeout, 2 = negative timeout (both expire at once)
 	TimeoutKind int `json:"timeoutKind"`
+	// BuildDelayUs: the Ask object is built that long before it is asked (prepared batch / retry queue);
+	// the timeout budget starts with the call, not with the construction of the request
+	BuildDelayUs int `json:"buildDelayUs"`
 }
 
 type scenario struct {
@@ -68,6 +71,9 @@ func (s scenario) String() string {
 			}
 			if k.TimeoutKind > 0 {
 				fmt.Fprintf(&sb, "/t%d", k.TimeoutKind)
+			}
+			if k.BuildDelayUs > 0 {
+				fmt.Fprintf(&sb, "/built-%dus", k.BuildDelayUs)
 			}
 			if k.Lat == latRacing {
 				fmt.Fprintf(&sb, "%+d", k.DeltaUs)
@@ -119,6 +125,9 @@ func genScenario(t *rapid.T) scenario {
 			}
 			if a.Lat == latNever || a.Lat == latLate {
 				a.TimeoutKind = rapid.SampledFrom([]int{0, 0, 1, 2}).Draw(t, "timeoutKind")
+				if a.TimeoutKind == 0 {
+					a.BuildDelayUs = rapid.SampledFrom([]int{0, 0, 1500}).Draw(t, "buildDelay")
+				}
 			}
 			as = append(as, a)
 		}
@@ -220,6 +229,9 @@ func runScenario(s scenario) result {
 					default:
 						a = fpgo.AskNewGenerics[int, int](id)
 					}
+					if sp.BuildDelayUs > 0 {
+						time.Sleep(time.Duration(sp.BuildDelayUs) * time.Microsecond)
+					}
 					n := atomic.AddInt64(&inflight, 1)
 					for {
 						m := atomic.LoadInt64(&maxInflight)
@@ -250,7 +262,12 @@ func runScenario(s scenario) result {
 						case latRacing:
 							timeout = racingTimeout
 						}
+						t0 := time.Now()
 						got, err := a.AskOnceWithTimeout(actor, timeout)
+						// a timeout can fire late (load) but never early: the budget starts with this call
+						if el := time.Since(t0); err == fpgo.ErrActorAskTimeout && timeout > 0 && el < timeout*8/10 {
+							setFail("C13/timeout-fired-early", fmt.Sprintf("AskOnceWithTimeout(%d, %v) returned ErrActorAskTimeout after only %v (request built %dus before the call)", id, timeout, el, sp.BuildDelayUs))
+						}
 						switch sp.Lat {
 						case latImmediate, latDeferred:
 							if err != nil || got != f(id) {
@@ -433,6 +450,7 @@ func TestRegress(t *testing.T) {
 		{Cap: -1, Askers: [][]ask{{{API: apiTimeout, Lat: latLate}, {API: apiOnce, Lat: latImmediate}}, {{API: apiChannel, Lat: latDeferred}}}},
 		{Cap: 4, Askers: [][]ask{{{API: apiTimeout, Lat: latRacing, DeltaUs: 50}}, {{API: apiTimeout, Lat: latRacing, DeltaUs: -50}}}},
 		{Cap: -1, Askers: [][]ask{{{API: apiTimeout, Lat: latNever}, {API: apiTimeout, Lat: latImmediate}}}},
+		{Cap: -1, Askers: [][]ask{{{API: apiTimeout, Lat: latNever, BuildDelayUs: 1500}, {API: apiTimeout, Lat: latLate, BuildDelayUs: 1500, Ctor: 1}}}},
 		{Cap: -1, Askers: [][]ask{{{API: apiChannel, Lat: latImmediate, Ctor: 1, ReadDelayUs: 200}, {API: apiChannel, Lat: latImmediate, Ctor: 3, ReadDelayUs: 20}}}},
 		{Cap: -1, Askers: [][]ask{{{API: apiTimeout, Lat: latNever, TimeoutKind: 1}, {API: apiTimeout, Lat: latLate, TimeoutKind: 2}, {API: apiOnce, Lat: latImmediate, Ctor: 2}}}},
 	}
